@@ -853,6 +853,8 @@ WITNESSES = [
     ("SELECT x.a AS xa FROM x CROSS JOIN (SELECT 1 AS c WHERE FALSE) AS y", {"x": [[1, 1]], "y": [], "z": []}),
     ("SELECT x.a AS xa FROM x CROSS JOIN (SELECT MAX(y.a) AS c FROM y HAVING MAX(y.a) > 5) AS y", {"x": [[1, 1]], "y": [[1, 1]], "z": []}),
     ("SELECT x.a AS xa, y.a AS ya FROM x LEFT JOIN y ON x.a = y.a JOIN z ON y.a = z.a", {"x": [[1, 1]], "y": [], "z": [[1, 1]]}),
+    ("SELECT x.a AS xa FROM x RIGHT JOIN (SELECT a, b FROM y) AS y ON x.a = y.a RIGHT JOIN (SELECT a, b FROM z) AS z ON y.a = z.a WHERE y.b > 1", {"x": [], "y": [], "z": [[1, 1]]}),
+    ("SELECT p.a AS pa FROM (SELECT 1 AS a FROM z) AS p FULL JOIN x ON p.a = x.b", {"x": [[1, 2]], "y": [], "z": []}),
     ("SELECT x.a AS xa FROM x WHERE NOT (x.a = 5 AND x.a < 3)", {"x": [[None, 1], [1, 1]], "y": [], "z": []}),
     ("SELECT x.a AS xa FROM x WHERE x.a NOT IN (SELECT y.a FROM y)", {"x": [[1, 1], [None, 2]], "y": [[None, 1], [2, 2]], "z": []}),
 ]
